@@ -34,6 +34,8 @@ type c21World struct {
 	drops    int
 	viol     *dsim.Violation
 	sends    []*sig.SendOp
+	rerefs   int
+	relSeq   int
 }
 
 func init() {
@@ -43,7 +45,7 @@ func init() {
 		Cfg:        defaultCfg,
 		Real:       []string{"signaling/rpc/server.Server", "signaling/rpc/client.Client (Send incl. cancellation/clear path, Recv, session routine)", "util keyed/routine/backoff", "peer.SignedMsg"},
 		Stub:       []string{"srpc transport replaced by simulator-owned message streams", "stream identity callback", "util/broadcast lock instrumented"},
-		FaultKinds: []string{"fault:stream-reset", "fault:clock-jump", "fault:send-cancel", "fault:wire-drop", "fault:wire-dup"},
+		FaultKinds: []string{"fault:stream-reset", "fault:clock-jump", "fault:send-cancel", "fault:wire-drop", "fault:wire-dup", "fault:peer-ref-released"},
 	})
 }
 
@@ -122,6 +124,35 @@ func (w *c21World) Actions(s *dsim.Sim, add func(dsim.Action)) {
 			w.issued++
 			f()
 		}})
+	}
+	// the application drops a peer (cancelling its sends on it) and may add it again later:
+	// a fresh peer tracker numbers its messages from 1 again
+	if s.Phase == dsim.PhaseChaos && w.rerefs < 3 {
+		for _, p := range w.names {
+			P := w.cw.Nodes[p]
+			for _, q := range w.names {
+				p, q := p, q
+				if P.Refs[q] == nil {
+					continue
+				}
+				add(dsim.Action{Name: "5flt:release-ref:" + p + q, Weight: 1, Fault: true, Fire: func() {
+					w.rerefs++
+					s.Count("fault:peer-ref-released")
+					for _, so := range w.sends {
+						if so.From == p && so.To == q && !so.Done && !so.Cancelled {
+							so.Cancel()
+						}
+					}
+					P.ReleaseRef(q)
+					w.relSeq++
+					n := w.relSeq
+					w.toIssue = append(w.toIssue, pendingOp{name: fmt.Sprintf("3op:%s.re-addref.%s.%d", p, q, n), fire: func() { P.AddRef(q) }})
+					payload := fmt.Sprintf("%s%sr%d", p, q, n)
+					w.toIssue = append(w.toIssue, pendingOp{name: "3op:" + p + ".send." + payload, ready: func() bool { return P.Refs[q] != nil },
+						fire: func() { w.sends = append(w.sends, P.StartSend(q, payload)) }})
+				}})
+			}
+		}
 	}
 	for _, so := range w.sends {
 		if !so.Done && !so.Cancelled {
